@@ -10,7 +10,13 @@ Trace_BSplineBasis, which judges the three laws of the statement on them.
 code -> spec: seeded random constructor calls and evaluations on small dyadic numbers (exact in binary
 floating point and small enough for TLC) are recorded and judged by Trace_BSplineBasis; the exact
 outcome TLC computes for each record is then used to tighten the float comparison to 1e-10.
-Python only converts (rational <-> float, float -> scaled integer); every expected value is TLC's.
+Representations: the same VALUES are handed to the code in several numpy forms (float64, float32, int64,
+int32, int16, uint8, byte-swapped, strided, read-only) wherever the form carries them exactly; TLC picks the
+form of every array of a case (spec part 4, C08_FormsRepresent / C08_FormIndependent), the recorded direction
+draws it at random.  The expected outcome is the one TLC computed for the values.
+After the recorded direction a binding self-test hands falsified copies of accepted records to the same trace
+operators (Trace_BSplineBasisSelf): every one must be rejected.
+Python only converts (rational <-> float/int array, float -> scaled integer); every expected value is TLC's.
 """
 import math
 import os
@@ -24,6 +30,7 @@ from .. import core
 KS = 65536          # knot abstraction of the trace records: round(t * KS)
 VS = 4096           # value abstraction: round(v * VS)
 VTOL = 1e-10        # values / basis rows against TLC's exact rationals
+VTOL_SINGLE = 2e-5  # ... when the abscissae themselves are single precision (form f4)
 KTOL = 1e-6         # constructed knots (single precision in the code)
 FINDING_WHAT = {
     'D-C08-1': 'everyn: sample index nx not clamped (IndexError when nbkpts-1 divides nx)',
@@ -31,6 +38,8 @@ FINDING_WHAT = {
     'D-C08-3': 'point on a repeated lowest breakpoint is attributed to the empty first cell: NaN',
     'D-C08-4': 'everyn samples unsorted data in the caller\'s order: knots not non-decreasing',
     'D-C08-5': 'coverage fix raises the first of several equal highest breakpoints: knots not non-decreasing',
+    'D-C08-6': 'value() of an empty array of points raises IndexError instead of returning empty arrays',
+    'D-C08-7': 'integer / read-only bkpt= or placed= array is used in place: knots truncated, wrapped, or ValueError',
 }
 
 
@@ -65,6 +74,61 @@ def jsonable(o):
     return o
 
 
+INT_FORMS = ('i8', 'i4', 'i2', 'u1')
+FORMS = ('f8', 'f4', 'i8', 'i4', 'i2', 'u1', 'f8swap', 'f8strided', 'f8readonly')
+SINGLE_FORMS = ('f4',)
+
+
+def as_fraction(v):
+    if isinstance(v, (list, tuple)):
+        return fr(v)
+    return Fraction(v)
+
+
+def representable(form, v):
+    """harness-side mirror used only to DRAW forms in the recorded direction; TLC re-checks (UNREPRESENTABLE)"""
+    v = as_fraction(v)
+    if form in ('i8', 'i4'):
+        return v.denominator == 1 and abs(v) < 2**30
+    if form == 'i2':
+        return v.denominator == 1 and -32768 <= v <= 32767
+    if form == 'u1':
+        return v.denominator == 1 and 0 <= v <= 255
+    if form == 'f4':
+        return v.denominator in (1, 2, 4, 8, 16, 32, 64) and abs(v.numerator) < 1048576
+    return True
+
+
+def forms_for(vals):
+    return [f for f in FORMS if all(representable(f, v) for v in vals)]
+
+
+def typed(vals, form):
+    """The numpy array that carries the values (rationals [num, den] or Fractions) in the given form."""
+    fs = [as_fraction(v) for v in vals]
+    if form in INT_FORMS:
+        a = np.array([int(v) for v in fs], dtype=form)
+    elif form == 'f4':
+        a = np.array([float(v) for v in fs], dtype='f')
+    elif form == 'f8swap':
+        a = np.array([float(v) for v in fs], dtype=np.dtype('d').newbyteorder())
+    elif form == 'f8strided':
+        buf = np.full((2 * len(fs) + 1,), -777.25, dtype='d')
+        a = buf[1::2]
+        a[:] = [float(v) for v in fs]
+    else:
+        a = np.array([float(v) for v in fs], dtype='d')
+        if form == 'f8readonly':
+            a.setflags(write=False)
+        elif form != 'f8':
+            raise core.MachineryError('unknown form %r' % (form,))
+    exact = form in INT_FORMS or form == 'f4'      # double precision forms carry the nearest double (e.g. of 1/3)
+    if a.shape != (len(fs),) or any((Fraction(float(x)) != v) if exact else (float(x) != float(v))
+                                    for x, v in zip(a.tolist(), fs)):
+        raise core.MachineryError('form %s cannot carry %s' % (form, [str(v) for v in fs]))
+    return a
+
+
 def scaled(v, s):
     v = float(v)
     if not math.isfinite(v) or abs(v) * s >= 2**30:
@@ -73,11 +137,11 @@ def scaled(v, s):
 
 
 # ---------------------------------------------------------------- driving the real code ----------------
-def option_kwargs(opt, arg):
+def option_kwargs(opt, arg, aform='f8'):
     if opt == 'bkpt':
-        return {'bkpt': np.array([fl(q) for q in arg], dtype='d')}
+        return {'bkpt': typed(arg, aform)}
     if opt == 'placed':
-        return {'placed': np.array([fl(q) for q in arg], dtype='d')}
+        return {'placed': typed(arg, aform)}
     if opt == 'bkspace':
         return {'bkspace': fl(arg)}
     if opt == 'nbkpts':
@@ -87,12 +151,14 @@ def option_kwargs(opt, arg):
     raise core.MachineryError('unknown option ' + str(opt))
 
 
-def construct(data, nord, spread, opt, arg):
-    """One constructor call.  Returns (object or None, exception text or None)."""
+def construct(data, nord, spread, opt, arg, form='f8', aform='f8'):
+    """One constructor call, data and bkpt/placed arrays in the given forms.
+    Returns (object or None, exception text or None)."""
     from pydl.pydlutils.bspline import bspline
-    x = np.array([fl(q) for q in data], dtype='d')
+    x = typed(data, form)
+    kw = option_kwargs(opt, arg, aform)
     try:
-        return bspline(x, nord=int(nord), bkspread=fl(spread), **option_kwargs(opt, arg)), None
+        return bspline(x, nord=int(nord), bkspread=fl(spread), **kw), None
     except Exception as ex:
         return None, '%s: %s' % (type(ex).__name__, str(ex)[:120])
 
@@ -117,14 +183,19 @@ def build_eval_object(c):
         return None, '%s: %s' % (type(ex).__name__, str(ex)[:120])
 
 
-def observe_eval(obj, xs, cs, with_sorted=True):
-    """value(xs) for every coefficient vector (caller's order), and intrv / bsplvn of the sorted points."""
-    x = np.array(xs, dtype='d')
+def observe_eval(obj, xs, cs, form='f8', with_sorted=True):
+    """value(xs) for every coefficient vector (caller's order), and intrv / bsplvn of the sorted points;
+    xs (rationals / Fractions) are handed over as an array of the given form."""
+    x = typed(xs, form)
+    keep = x.tolist()
     obs = {'err': None, 'vals': [], 'mask': None, 'order': None, 'intrv': None, 'rows': None}
     try:
         for cv in cs:
             obj.coeff = np.array(cv, dtype='d')
-            yy, mask = obj.value(x.copy())
+            yy, mask = obj.value(x)
+            if x.tolist() != keep:
+                obs['err'] = 'value() changed the caller\'s array of points'
+                return obs
             yy = np.asarray(yy)
             mask = np.asarray(mask)
             if yy.shape != x.shape or mask.shape != x.shape:
@@ -136,9 +207,9 @@ def observe_eval(obj, xs, cs, with_sorted=True):
             obs['vals'].append([float(v) for v in yy])
             obs['mask'] = mask
         obs['mask'] = [bool(m) for m in obs['mask']]
-        if with_sorted:
+        if with_sorted and x.size > 0:
             order = np.argsort(x, kind='stable')
-            xw = x[order]
+            xw = x[order]                      # same element type as the caller's array
             il = obj.intrv(xw)
             rows = obj.bsplvn(xw, il)
             obs['order'] = [int(a) for a in order]
@@ -154,23 +225,24 @@ def close(v, want, tol=VTOL):
     return math.isfinite(v) and abs(Fraction(v) - want) <= Fraction(tol) * max(1, abs(want))
 
 
-def compare_eval(pts, idx, nord, obs, ncs):
+def compare_eval(pts, idx, nord, obs, ncs, single=False):
     """pts: TLC's PointExp records; idx[k] = index into pts of the k-th evaluated point.
-    Returns a list of (problem text, is_emptyfirst)."""
+    Returns a list of (problem text, id of the named deviation that explains it or None)."""
     probs = []
+    tol = VTOL_SINGLE if single else VTOL
     if obs['err']:
-        return [('raised/invalid: ' + obs['err'], False)]
+        return [('raised/invalid: ' + obs['err'], 'D-C08-6' if (len(idx) == 0 and 'Error' in obs['err']) else None)]
     for k, p in enumerate(idx):
         pe = pts[p]
         if obs['mask'][k] != pe['inr']:
-            probs.append(('point #%d: mask %s, specified %s' % (k, obs['mask'][k], pe['inr']), False))
+            probs.append(('point #%d: mask %s, specified %s' % (k, obs['mask'][k], pe['inr']), None))
         if not pe['inr'] or not pe['cand']:
             continue
         for q in range(ncs):
             v = obs['vals'][q][k]
-            if not any(close(v, fr(cd['vals'][q])) for cd in pe['cand']):
+            if not any(close(v, fr(cd['vals'][q]), tol) for cd in pe['cand']):
                 probs.append(('point #%d coefficient vector %d: value %r, specified %s' % (
-                    k, q, v, ' or '.join(str(fr(cd['vals'][q])) for cd in pe['cand'])), pe['emptyfirst']))
+                    k, q, v, ' or '.join(str(fr(cd['vals'][q])) for cd in pe['cand'])), 'D-C08-3' if pe['emptyfirst'] else None))
     if obs['order'] is not None:
         for s, a in enumerate(obs['order']):
             pe = pts[idx[a]]
@@ -178,21 +250,22 @@ def compare_eval(pts, idx, nord, obs, ncs):
             if not pe['inr']:
                 if cell not in pe['clamp']:
                     probs.append(('sorted point #%d (outside): intrv %d, documented clamp %s' % (
-                        s, cell - 1, [k - 1 for k in pe['clamp']]), False))
+                        s, cell - 1, [k - 1 for k in pe['clamp']]), None))
                 continue
             if not pe['cand']:
                 continue
             hit = [cd for cd in pe['cand'] if cd['cell'] == cell]
             if not hit:
                 probs.append(('sorted point #%d: intrv %d, cells containing the point %s' % (
-                    s, cell - 1, [cd['cell'] - 1 for cd in pe['cand']]), pe['emptyfirst']))
+                    s, cell - 1, [cd['cell'] - 1 for cd in pe['cand']]), 'D-C08-3' if pe['emptyfirst'] else None))
                 continue
             row = obs['rows'][s]
             want = [fr(w) for w in hit[0]['row']]
-            if len(row) != nord or not all(close(row[l], want[l]) for l in range(nord)):
-                probs.append(('sorted point #%d: bsplvn row %r, specified %s' % (s, row, [str(w) for w in want]), pe['emptyfirst']))
-            elif any(v < 0 for v in row) or abs(sum(row) - 1) > 1e-12:
-                probs.append(('sorted point #%d: basis row negative or not summing to one: %r' % (s, row), False))
+            if len(row) != nord or not all(close(row[l], want[l], tol) for l in range(nord)):
+                probs.append(('sorted point #%d: bsplvn row %r, specified %s' % (s, row, [str(w) for w in want]),
+                              'D-C08-3' if pe['emptyfirst'] else None))
+            elif any(v < 0 for v in row) or abs(sum(row) - 1) > (1e-5 if single else 1e-12):
+                probs.append(('sorted point #%d: basis row negative or not summing to one: %r' % (s, row), None))
     return probs
 
 
@@ -212,9 +285,9 @@ def compare_knots(obj, want):
 
 
 # ---------------------------------------------------------------- trace records -------------------------
-def knots_record(data, nord, spread, opt, arg, obj, exc):
+def knots_record(data, nord, spread, opt, arg, obj, exc, form='f8', aform='f8'):
     rec = {'kind': 'knots', 'nord': int(nord), 'opt': opt, 'spread': jsonable(spread), 'data': jsonable(data),
-           'arg': jsonable(arg) if opt not in ('nbkpts', 'everyn') else int(arg)}
+           'arg': jsonable(arg) if opt not in ('nbkpts', 'everyn') else int(arg), 'form': form, 'aform': aform}
     if obj is None:
         rec['obs'] = {'err': True, 'exc': exc, 'finite': True, 'knots': [], 'ncoef': 0}
     else:
@@ -226,10 +299,10 @@ def knots_record(data, nord, spread, opt, arg, obj, exc):
     return rec
 
 
-def eval_record(nord, t, cs, xs, obs):
-    """t, xs: Fractions (exact images of the floats used); cs: integer vectors."""
+def eval_record(nord, t, cs, xs, obs, xform='f8'):
+    """t, xs: Fractions (exact images of the numbers used); cs: integer vectors; xform: form of the points."""
     rec = {'kind': 'eval', 'nord': int(nord), 't': [qq(v) for v in t], 'cs': [[int(v) for v in cv] for cv in cs],
-           'xs': [qq(v) for v in xs]}
+           'xs': [qq(v) for v in xs], 'xform': xform}
     n = len(xs)
     if obs['err']:
         rec['obs'] = {'err': True, 'exc': obs['err'], 'mask': [], 'vals': [], 'vfin': [], 'sorted': False,
@@ -240,6 +313,10 @@ def eval_record(nord, t, cs, xs, obs):
         sc = [scaled(v, VS) for v in obs['vals'][q]]
         vfin.append([v is not None for v in sc])
         vals.append([0 if v is None else v for v in sc])
+    if obs['order'] is None:            # no points: nothing was sorted
+        rec['obs'] = {'err': False, 'exc': '', 'mask': obs['mask'], 'vals': vals, 'vfin': vfin, 'sorted': False,
+                      'order': [], 'intrv': [], 'rows': [], 'rsign': [], 'rsum': []}
+        return rec
     rows = [[scaled(v, VS) for v in row] for row in obs['rows']]
     o = {'err': False, 'exc': '', 'mask': obs['mask'], 'vals': vals, 'vfin': vfin, 'sorted': True,
          'order': [a + 1 for a in obs['order']], 'intrv': obs['intrv'],
@@ -265,7 +342,7 @@ def judge(ctx, records, label, chunk=8000):
             if st['why'] == 'PENDING':
                 continue
             seen += 1
-            if st['why'].startswith('UNJUDGEABLE'):
+            if st['why'].startswith('UNJUDGEABLE') or st['why'].startswith('UNREPRESENTABLE'):
                 raise core.MachineryError('trace record %d cannot be judged in 32 bits: %s' % (base + st['i'] - 1, part[st['i'] - 1]))
             res[base + st['i'] - 1] = (st['why'], st['out'])
         if seen != len(part):
@@ -302,34 +379,40 @@ def finding_of(text):
 
 
 # ---------------------------------------------------------------- spec -> code --------------------------
+def pick_finding(probs):
+    """the named deviation that explains EVERY problem of a case, or None"""
+    tags = set(t for _, t in probs)
+    return tags.pop() if len(tags) == 1 and None not in tags else None
+
+
 def run_eval_case(c, exp):
     """Replay one evaluation problem.  Returns (problems, observations, object)."""
     obj, exc = build_eval_object(c)
     if obj is None:
-        return [('constructor raised ' + exc, False)], None, None
+        return [('constructor raised ' + exc, None)], None, None
     bad = compare_knots(obj, exp['knots'])
     if bad and c['how'] == 'bkpt':
-        return [('constructed knots: ' + bad, False)], None, obj
+        return [('constructed knots: ' + bad, None)], None, obj
     probs = []
     allobs = []
-    P = [fl(q) for q in c['P']]
     for o, order in enumerate(c['orders']):
-        idx = [int(k) - 1 for k in order]
-        xs = [P[k] for k in idx]
-        obs = observe_eval(obj, xs, c['cs'])
+        idx = [int(k) - 1 for k in order['idx']]
+        xs = [c['P'][k] for k in idx]
+        obs = observe_eval(obj, xs, c['cs'], order['form'])
         allobs.append(obs)
-        for text, ef in compare_eval(exp['pts'], idx, int(c['nord']), obs, len(c['cs'])):
-            probs.append(('order %d: %s' % (o, text), ef))
+        for text, tag in compare_eval(exp['pts'], idx, int(c['nord']), obs, len(c['cs']), order['single']):
+            probs.append(('order %d (%d points as %s): %s' % (o, len(idx), order['form'], text), tag))
     return probs, allobs, obj
 
 
 def run_opt_case(c, exp):
     """Replay one construction call.  Returns (problem text or None, finding id or None, trace record)."""
-    obj, exc = construct(c['data'], c['nord'], c['spread'], c['opt'], c['arg'])
-    rec = knots_record(c['data'], c['nord'], c['spread'], c['opt'], c['arg'], obj, exc)
+    form, aform = c.get('form', 'f8'), c.get('aform', 'f8')
+    obj, exc = construct(c['data'], c['nord'], c['spread'], c['opt'], c['arg'], form, aform)
+    rec = knots_record(c['data'], c['nord'], c['spread'], c['opt'], c['arg'], obj, exc, form, aform)
     devs = set(exp.get('devs', ()))
     if obj is None:
-        fid = 'D-C08-1' if ('D-C08-1' in devs and exc.startswith('IndexError')) else None
+        fid = 'D-C08-1' if ('D-C08-1' in devs and exc.startswith('IndexError')) else ('D-C08-7' if 'D-C08-7' in devs else None)
         return 'constructor raised ' + exc, fid, rec
     if exp['exact']:
         bad = compare_knots(obj, exp['knots'])
@@ -340,16 +423,19 @@ def run_opt_case(c, exp):
                 fid = 'D-C08-2'
             elif 'D-C08-5' in devs and len(got) == len(exp['knots']) and any(a > b for a, b in zip(got, got[1:])):
                 fid = 'D-C08-5'
+            elif 'D-C08-7' in devs:
+                fid = 'D-C08-7'
             return 'knots: ' + bad, fid, rec
     return None, None, rec
 
 
 def brief_case(c):
     if c['kind'] == 'opt':
-        return 'bspline(x=%s, nord=%d, bkspread=%s, %s=%s)' % (
-            [str(fr(q)) for q in c['data']], c['nord'], fr(c['spread']), c['opt'],
+        return 'bspline(x=%s as %s, nord=%d, bkspread=%s, %s=%s%s)' % (
+            [str(fr(q)) for q in c['data']], c.get('form', 'f8'), c['nord'], fr(c['spread']), c['opt'],
             c['arg'] if c['opt'] in ('nbkpts', 'everyn') else
-            (str(fr(c['arg'])) if c['opt'] == 'bkspace' else [str(fr(q)) for q in c['arg']]))
+            (str(fr(c['arg'])) if c['opt'] == 'bkspace' else [str(fr(q)) for q in c['arg']]),
+            (' as ' + c.get('aform', 'f8')) if c['opt'] in ('bkpt', 'placed') else '')
     return 'knots=%s nord=%d (%s, %s)' % ([str(fr(q)) for q in c['t']], c['nord'], c['fam'], c['how'])
 
 
@@ -364,7 +450,9 @@ def run(ctx):
                 'bkspread) or an evaluation problem (knot vector, order, 3 coefficient vectors, points, evaluation orders); '
                 'non-trivial = distinct constructor calls with at least 2 distinct data values, and distinct '
                 '(knots, order, point order) evaluation problems with a point inside the range; recorded calls = seeded '
-                'random constructor calls and evaluations on dyadic numbers judged by Trace_BSplineBasis')
+                'random constructor calls and evaluations on dyadic numbers judged by Trace_BSplineBasis; every array '
+                '(data, bkpt/placed, evaluation points) is handed over in a numpy form chosen by TLC / drawn at random '
+                'among those that carry its values exactly (f8 f4 i8 i4 i2 u1, byte-swapped, strided, read-only)')
     ctx.assumptions = [
         'TLC 32-bit integers: enumerated knots are small integers, points halves and thirds; for orders 5-6 the padding '
         'extent is kept within 10 units and thirds are left out; recorded evaluations use grids 1/8 .. 1/2',
@@ -375,6 +463,15 @@ def run(ctx):
         'every-n is documented for sorted data: equality with the documented breakpoints is demanded for sorted data, '
         'for unsorted data only the laws of the statement (non-decreasing, covering, order-1 extra knots)',
         'explicit / placed breakpoints are supplied in non-decreasing order',
+        'element type / byte order / stride / writability of an array is a representation of its values: same expected '
+        'outcome; for float32 abscissae (the precision of the caller\'s own numbers) values and basis rows are compared to '
+        '2e-5 relative instead of 1e-10; every integer type must give double precision',
+        'in the domain and checked: empty array of evaluation points (empty result, no exception); a single evaluation '
+        'point; order 1; a single datum or constant data in the constructor (zero-width range: the three laws and the '
+        'documented breakpoints are demanded, no value is defined on an empty breakpoint range)',
+        'outside the domain: 0-d (scalar) and 2-d arrays of points or data - the statement speaks of points "in the '
+        'caller\'s order" and the class is documented for 1-d numpy.ndarray (x.size, x[i]); empty DATA in the '
+        'constructor - there is no data range to cover',
     ]
     cfg = 'MC_BSplineBasis_quick.cfg' if ctx.quick else 'MC_BSplineBasis_thorough.cfg'
     r = ctx.tlc('MC_BSplineBasis.tla', cfg, dump=True, timeout=1500)
@@ -394,9 +491,10 @@ def run(ctx):
             krecs.append(rec)
             kcases.append((c, exp, bad is not None))
             ctx.evaluated(1, 'construct-' + c['opt'])
+            ctx.cov['parts']['dataform-' + c['form']] = ctx.cov['parts'].get('dataform-' + c['form'], 0) + 1
             ctx.validated()
             if len(set(c['data'])) >= 2:
-                ctx.nontriv(('opt', c['opt'], repr(c['arg']), c['data'], c['nord'], c['spread']))
+                ctx.nontriv(('opt', c['opt'], repr(c['arg']), c['data'], c['nord'], c['spread'], c['form'], c['aform']))
             if n % 700 == 1:
                 ctx.sample({'call': brief_case(c), 'specified_knots': [str(fr(q)) for q in exp['knots']],
                             'observed_knots': rec['obs']['knots'] and [v / KS for v in rec['obs']['knots']]})
@@ -405,18 +503,21 @@ def run(ctx):
                               finding=fid)
             continue
         probs, allobs, obj = run_eval_case(c, exp)
-        npts = sum(len(o) for o in c['orders'])
+        npts = sum(len(o['idx']) for o in c['orders'])
         ctx.evaluated(npts * len(c['cs']), 'value-' + c['fam'])
         ctx.evaluated(npts, 'intrv-bsplvn-' + c['fam'])
         ctx.validated()
         if any(p['inr'] for p in exp['pts']):
-            for o in range(len(c['orders'])):
-                ctx.nontriv(('eval', c['t'], c['nord'], c['orders'][o]))
+            for o in c['orders']:
+                ctx.nontriv(('eval', c['t'], c['nord'], o['idx'], o['form']))
+                ctx.evaluated(0, 'form-' + o['form'])
+                ctx.cov['parts']['form-' + o['form']] += 1
         if n % 700 == 2 and allobs:
-            ctx.sample({'problem': brief_case(c), 'points': [str(fr(q)) for q in c['P']], 'order': list(c['orders'][0]),
+            ctx.sample({'problem': brief_case(c), 'points': [str(fr(q)) for q in c['P']], 'order': list(c['orders'][0]['idx']),
+                        'form': c['orders'][0]['form'],
                         'coeff': list(c['cs'][1]), 'observed_values': allobs[0]['vals'][1] if not allobs[0]['err'] else allobs[0]['err']})
         if probs:
-            fid = 'D-C08-3' if all(ef for _, ef in probs) else None
+            fid = pick_finding(probs)
             report({'what': '%s: %s%s' % (brief_case(c), probs[0][0], ' (+%d more)' % (len(probs) - 1) if len(probs) > 1 else ''),
                            'mode': 'eval', 'c': jsonable(c), 'exp': jsonable(exp), 'problems': [p for p, _ in probs][:12]},
                           finding=fid)
@@ -429,8 +530,10 @@ def run(ctx):
     ne = 350 if ctx.quick else 3000
     for _ in range(nk):
         call = random_construction(rng)
-        obj, exc = construct(*call)
-        recs.append(knots_record(*call, obj, exc))
+        form = rng.choice(forms_for(call[0]))
+        aform = rng.choice(forms_for(call[4])) if call[3] in ('bkpt', 'placed') else 'f8'
+        obj, exc = construct(*call, form, aform)
+        recs.append(knots_record(*call, obj, exc, form, aform))
         meta.append(('knots', call, None))
         if len(set(tuple(q) for q in call[0])) >= 2:
             ctx.nontriv(('rk', repr(call)))
@@ -455,24 +558,99 @@ def run(ctx):
     ctx.evaluated(sum(len(m[1]['xs']) * len(m[1]['cs']) for m in meta if m[0] == 'eval'), 'recorded-values')
     ctx.validated(len(recs))
     kinds = set()
+    accepted = []
     for k, (rec, (kind, what, obs), (why, out)) in enumerate(zip(recs, meta, res)):
         kinds.add(rec.get('opt', 'eval'))
         if kind == 'eval' and not why and not rec['obs']['err']:
             # tighten: the floats against the exact outcome TLC computed for this record
-            probs = compare_eval(out, list(range(len(rec['xs']))), rec['nord'], obs, len(rec['cs']))
+            probs = compare_eval(out, list(range(len(rec['xs']))), rec['nord'], obs, len(rec['cs']),
+                                 rec['xform'] in SINGLE_FORMS)
             if probs:
-                why = 'beyond 1e-10: ' + probs[0][0]
-                if all(ef for _, ef in probs):
-                    why = 'D-C08-3 ' + why
+                why = 'beyond tolerance: ' + probs[0][0]
+                if pick_finding(probs):
+                    why = pick_finding(probs) + ' ' + why
         if why:
             report({'what': 'recorded %s rejected by Trace_BSplineBasis: %s; %s' % (
                 kind, why, describe_record(rec)), 'mode': 'rec', 'record': rec, 'why': why}, finding=finding_of(why))
+        else:
+            accepted.append(k)
     if kinds != {'bkpt', 'placed', 'bkspace', 'nbkpts', 'everyn', 'eval'}:
         raise core.MachineryError('recorded calls did not cover every option kind: %s' % sorted(kinds))
     ctx.sample({'recorded_construction': describe_record(recs[0])})
     ctx.sample({'recorded_evaluation': describe_record(recs[nk]), 'observed_values': meta[nk][2]['vals'] if not meta[nk][2]['err'] else meta[nk][2]['err']})
+    xforms = set(r['xform'] for r in recs if r['kind'] == 'eval') | set(r['form'] for r in recs if r['kind'] == 'knots')
+    if not set(FORMS) <= xforms:
+        raise core.MachineryError('recorded calls did not use every form: %s' % sorted(xforms))
+    # ---- binding self-test: falsified copies of accepted records must all be rejected by the same operators
+    fals = falsify(rng, [recs[k] for k in accepted], [res[k][1] for k in accepted], 120 if ctx.quick else 300)
+    core.binding_selftest(ctx, 'Trace_BSplineBasisSelf', fals, 'recorded_calls')
+    _tick(ctx, 'self-test done')
     report.finish()
     ctx.exhaustive = not ctx.quick
+
+
+def falsify(rng, records, outs, want):
+    """Copies of accepted records with ONE observed field changed beyond any tolerance (so that the real code
+    cannot have produced them): a spline value, a mask bit, an interval index, a basis value; a knot that breaks a
+    law of the statement, a knot off the documented position, the coefficient count."""
+    import copy
+    fals = []
+    kinds = {}
+    order = list(range(len(records)))
+    rng.shuffle(order)
+    for k in order:
+        if len(fals) >= want:
+            break
+        rec, out = records[k], outs[k]
+        r2 = copy.deepcopy(rec)
+        o = r2['obs']
+        if o['err']:
+            continue
+        if rec['kind'] == 'knots':
+            m = len(o['knots'])
+            mode = rng.choice(['ncoef', 'decreasing', 'uncovered', 'moved'])
+            if mode == 'ncoef':
+                o['ncoef'] += 1
+            elif mode == 'decreasing' and m >= 2:
+                j = rng.randrange(m - 1)
+                o['knots'][j] = o['knots'][j + 1] + 50
+            elif mode == 'uncovered':
+                lo = min(fr(q) for q in rec['data'])
+                o['knots'][rec['nord'] - 1] = scaled(float(lo), KS) + 500
+                for j in range(rec['nord'] - 1):          # keep the vector non-decreasing: only coverage is broken
+                    o['knots'][j] = min(o['knots'][j], o['knots'][rec['nord'] - 1])
+                if m > rec['nord'] and o['knots'][rec['nord']] < o['knots'][rec['nord'] - 1]:
+                    continue
+            elif mode == 'moved' and out.get('knots') and rec['nord'] >= 2:
+                o['knots'][0] -= 40                        # first padding knot off its documented place, laws intact
+            else:
+                continue
+        else:
+            inr = [a for a, pe in enumerate(out) if pe['inr'] and pe['cand']]
+            if not inr:
+                continue
+            a = rng.choice(inr)
+            mode = rng.choice(['value', 'mask', 'intrv', 'row'])
+            if mode == 'value':
+                o['vals'][rng.randrange(len(o['vals']))][a] += 40 * VS     # |value| <= 9 inside the range
+            elif mode == 'mask':
+                b = rng.randrange(len(o['mask']))
+                o['mask'][b] = not o['mask'][b]
+            else:
+                s = o['order'].index(a + 1)
+                if mode == 'intrv':       # a cell of the breakpoint range that does not contain the point
+                    cells = [cd['cell'] for cd in out[a]['cand']]
+                    other = [j for j in range(rec['nord'], len(rec['t']) - rec['nord'] + 1) if j not in cells]
+                    if not other:
+                        continue
+                    o['intrv'][s] = rng.choice(other) - 1
+                else:
+                    o['rows'][s][rng.randrange(rec['nord'])] += 6 * VS
+        kinds[rec['kind'] + ':' + mode] = kinds.get(rec['kind'] + ':' + mode, 0) + 1
+        fals.append(r2)
+    if len(kinds) < 7:
+        raise core.MachineryError('binding self-test exercised too few kinds of falsification: %s' % kinds)
+    return fals
 
 
 # ---------------------------------------------------------------- random calls (code -> spec) ----------
@@ -560,7 +738,14 @@ def random_evaluation(rng):
             xs.append(rng.choice(pool))
     ncoef = len(bk) + nord - 2
     cs = [[rng.randint(-9, 9) for _ in range(ncoef + 6)] for _ in range(2)]     # cut to the object's size later
-    return {'nord': nord, 'how': how, 'bk': bkf, 'spread': spread, 't': t, 'xs': xs, 'cs': cs}
+    if rng.random() < 0.04:
+        xs = []                                    # no point at all
+    if rng.random() < 0.45:                        # the same problem on the grid where every number is an integer
+        bkf = [v * fine for v in bkf]
+        xs = [v * fine for v in xs]
+        t = [v * fine for v in t] if t else t
+    xform = rng.choice(forms_for(xs))              # the representation the points are handed over in
+    return {'nord': nord, 'how': how, 'bk': bkf, 'spread': spread, 't': t, 'xs': xs, 'cs': cs, 'xform': xform}
 
 
 def record_evaluation(prob):
@@ -581,9 +766,9 @@ def record_evaluation(prob):
             t = prob['t'] or prob['bk']
         else:
             cs = [cv[:ncoef] for cv in cs]
-            obs = observe_eval(obj, [float(v) for v in prob['xs']], cs)
+            obs = observe_eval(obj, prob['xs'], cs, prob['xform'])
     prob['cs'] = cs
-    return eval_record(prob['nord'], t, cs, prob['xs'], obs), obs
+    return eval_record(prob['nord'], t, cs, prob['xs'], obs, prob['xform']), obs
 
 
 def describe_record(rec):
@@ -593,11 +778,12 @@ def describe_record(rec):
             arg = str(fr(arg))
         elif rec['opt'] in ('bkpt', 'placed'):
             arg = [str(fr(q)) for q in arg]
-        return 'bspline(x=%s, nord=%d, bkspread=%s, %s=%s) -> %s' % (
-            [str(fr(q)) for q in rec['data']], rec['nord'], fr(rec['spread']), rec['opt'], arg,
+        return 'bspline(x=%s as %s, nord=%d, bkspread=%s, %s=%s as %s) -> %s' % (
+            [str(fr(q)) for q in rec['data']], rec.get('form', 'f8'), rec['nord'], fr(rec['spread']), rec['opt'], arg,
+            rec.get('aform', 'f8'),
             rec['obs']['exc'] if rec['obs']['err'] else [v / KS for v in rec['obs']['knots']])
-    return 'knots=%s nord=%d coeff=%s x=%s' % ([str(fr(q)) for q in rec['t']], rec['nord'], rec['cs'],
-                                               [str(fr(q)) for q in rec['xs']])
+    return 'knots=%s nord=%d coeff=%s x=%s as %s' % ([str(fr(q)) for q in rec['t']], rec['nord'], rec['cs'],
+                                                     [str(fr(q)) for q in rec['xs']], rec.get('xform', 'f8'))
 
 
 # ---------------------------------------------------------------- replay of one failing case -----------
@@ -616,7 +802,7 @@ def replay(ctx, case):
         for p, _ in probs:
             print('  ', p)
         if probs:
-            ctx.violation(case, finding='D-C08-3' if all(ef for _, ef in probs) else None)
+            ctx.violation(case, finding=pick_finding(probs))
     elif mode == 'opt':
         c, exp = case['c'], case['exp']
         bad, fid, rec = run_opt_case(c, exp)
@@ -631,8 +817,9 @@ def replay(ctx, case):
         rec = case['record']
         if rec['kind'] == 'knots':
             call = (rec['data'], rec['nord'], rec['spread'], rec['opt'], rec['arg'])
-            obj, exc = construct(*call)
-            new = knots_record(*call, obj, exc)
+            forms = (rec.get('form', 'f8'), rec.get('aform', 'f8'))
+            obj, exc = construct(*call, *forms)
+            new = knots_record(*call, obj, exc, *forms)
             obs = None
         else:
             t = [fr(q) for q in rec['t']]
@@ -640,13 +827,15 @@ def replay(ctx, case):
             c = {'bk': [qq(v) for v in t[nord - 1:len(t) - nord + 1]], 'nord': nord, 'spread': [1, 1], 'how': 'direct',
                  't': rec['t']}
             obj, exc = build_eval_object(c)
-            obs = observe_eval(obj, [fl(q) for q in rec['xs']], rec['cs']) if obj is not None else {'err': exc}
-            new = eval_record(nord, t, rec['cs'], [fr(q) for q in rec['xs']], obs)
+            xform = rec.get('xform', 'f8')
+            obs = observe_eval(obj, rec['xs'], rec['cs'], xform) if obj is not None else {'err': exc}
+            new = eval_record(nord, t, rec['cs'], [fr(q) for q in rec['xs']], obs, xform)
         why, out = judge(ctx, [new], 'replay')[0]
         if not why and obs is not None and not obs['err']:
-            probs = compare_eval(out, list(range(len(new['xs']))), new['nord'], obs, len(new['cs']))
+            probs = compare_eval(out, list(range(len(new['xs']))), new['nord'], obs, len(new['cs']),
+                                 new['xform'] in SINGLE_FORMS)
             if probs:
-                why = 'beyond 1e-10: ' + probs[0][0]
+                why = 'beyond tolerance: ' + probs[0][0]
         print('replayed recorded call:', describe_record(new))
         print('Trace_BSplineBasis:', why or 'accepted')
         if why:
